@@ -179,6 +179,12 @@ def long_inputs(rng, maxlen, big_path):
         for sname, suffix in (("paren", " )"), ("operand", " b"), ("comma", ", x"), ("wrapped", ")) or c")):
             yield "long:deep-%s-then-%s" % (name, sname), prefix + suffix
         yield "long:deep-%s-in-parens-then-error" % name, "(" + prefix + ")) eq"
+        # ... or followed by the END of the input while a bracket is still open
+        for oname, opener in (("paren", "("), ("call", "tolower("), ("custom-call", "my.f(1, "),
+                              ("named", "my.f(k="), ("list", "a in (1, "), ("lambda", "xs/any(y: "),
+                              ("not-paren", "not ("), ("cmp-paren", "b eq (")):
+            for ename, ender in (("eof", ""), ("ws", " "), ("op", " and"), ("comma", ",")):
+                yield "long:deep-%s-open-%s-%s" % (name, oname, ename), opener + prefix + ender
     yield "long:mixed", cap(" and ".join("(a%d/b/c add %d) mul -x lt f.g(%d, 'q''%d') or not y in (1, 2,)"
                                          % (i, i, i, i) for i in range(n // 70)))
 
